@@ -11,7 +11,7 @@ from . import core, passes, impl, render, project
 
 PROP = 'C17'
 CONFIGS = {
-    'quick': [('front', ('H_F', 'M_E0', 'T_F', 'O_F', 3, 3), 2500)],
+    'quick': [('front', ('H_F', 'M_E0', 'T_F', 'O_F', 3, 3), 4000)],
     'thorough': [('front', ('H_F', 'M_E0', 'T_F', 'O_F', 5, 4), 80000)],
 }
 ANON = [[], ['a'], ['q'], ['a', 'q'], ['a', '__c0'], ['__r0', 'q'], ['a', '__r0'], ['a', '__r0', 'q']]
